@@ -868,9 +868,31 @@ class Exec:
                 todo += self.effectful_calls(part.value)
         self.note_ignored(e, 'f-string text (kept as opaque string)' + ('; calls inside it are evaluated' if todo else ''))
 
+        # formatting a plain LOCAL whose value is an object of unknown class -- `{e}`, `{x!r}` -- runs that class's __str__ / __repr__ / __format__: user code,
+        # which may raise (an exception class whose __str__ formats its args wrongly ...).  Values known to be None / int / bool / float / str format totally.
+        user_vals = []
+        for part in e.values:
+            if getattr(self.unit, 'user_format_total', False):
+                break       # the unit's stated precondition: the values it formats have a total __str__ / __repr__
+            if isinstance(part, ast.FormattedValue) and isinstance(part.value, ast.Name) and (part.value.id in st.env or part.value.id in st.cells):
+                v = st.env.get(part.value.id, st.cells.get(part.value.id))
+                if is_z3(v) and v.sort() == Val:
+                    user_vals.append(v)
+
+        def finish(s):
+            outs = [('ok', s, fresh('fstr', z3.StringSort()))]
+            for v in user_vals:
+                prim = z3.Or(V.is_none(v), V.is_intv(v), V.is_boolv(v), V.is_realv(v), V.is_strv(v))
+                s_bad = s.fork().assume(z3.Not(prim))
+                if self.feasible(s_bad):
+                    boom = fresh('format_failure')
+                    s_bad.assume(V.isinst(boom, 'Exception'), *V.cls_facts(boom))
+                    outs.append(('raise', s_bad, boom))
+            return outs
+
         def go(s, k):
             if k == len(todo):
-                return [('ok', s, fresh('fstr', z3.StringSort()))]
+                return finish(s)
             return self.bind(self.ev(todo[k], s), lambda s2, _v: go(s2, k + 1))
         return go(st, 0)
 
@@ -979,7 +1001,10 @@ class Exec:
         if self.unit.is_ignored_call(src, local_root=shadowed):
             inner = []
             for a in list(e.args) + [k.value for k in e.keywords]:
-                inner += self.effectful_calls(a)
+                if isinstance(a, ast.JoinedStr):
+                    inner.append(a)         # an f-string is built eagerly, whatever the log level
+                else:
+                    inner += self.effectful_calls(a)
             self.note_ignored(e, f'call `{src}(...)` dropped (no effect on the property; assumed not to raise' + ('; calls inside its arguments are evaluated)' if inner else ')'))
             return self.eval_for_effects(inner, st, lambda s: [('ok', s, NONE)])
         hook = getattr(self.unit, 'on_call', None)
@@ -1956,8 +1981,15 @@ def _b_getattr(ex, e, st):
 
 
 def _b_print(ex, e, st):
-    ex.note_ignored(e, 'print(...) dropped')
-    return [('ok', st, NONE)]
+    # the output is dropped, but building it is not: f-string arguments are evaluated (a call, or a user __str__, inside them may raise), and so are calls in other arguments
+    ex.note_ignored(e, 'print(...) output dropped')
+    todo = []
+    for a in list(e.args):
+        if isinstance(a, ast.JoinedStr):
+            todo.append(a)
+        else:
+            todo += ex.effectful_calls(a)
+    return ex.eval_for_effects(todo, st, lambda s: [('ok', s, NONE)])
 
 
 def _b_type(ex, e, st):
